@@ -8,6 +8,7 @@ package main
 import (
 	"encoding/binary"
 	"fmt"
+	"runtime/debug"
 	"runtime/metrics"
 	"strings"
 
@@ -136,6 +137,9 @@ func roSeedsPlain(mode int, ss []seed) mc.Harness {
 	pairs := seedEntryPairs(ss)
 	const chunk = 8
 	return func(x *mc.Exec) {
+		// recursion whose depth follows the input overflows a 16 MiB stack on inputs of a megabyte or two instead of
+		// the default 1 GiB on inputs of tens of megabytes; bounded recursion is nowhere near either
+		debug.SetMaxStack(16 << 20)
 		ch := x.All("pair-chunk", (len(pairs)+chunk-1)/chunk)
 		sigs := map[string]bool{}
 		n := 0
@@ -494,7 +498,7 @@ func roSpaces(mode int, tier string) []mc.Space {
 	sp = append(sp, mc.Space{Name: "shared-value-bytes", H: roSeedsPlain(mode, amplificationSeeds()), NoLevels: true, Isolate: true,
 		Rule: "TIFF blocks whose 40-83 string fields name overlapping or identical value bytes (steps 0, 1, 64, 100; counts 1000-4096), alone and repeated as 24 and 64 Exif segments of one JPEG in alternating byte orders x every accepting entry point: the work and memory of a decode must follow the file's length, not the number of names for the same bytes"})
 	sp = append(sp, mc.Space{Name: "many-repetitions", H: roSeedsPlain(mode, repetitionSeeds()), NoLevels: true, Isolate: true,
-		Rule: "the smallest legal unit of each container structure repeated 3000-20000 times (Exif segments of 31-130 bytes, XMP segments, empty comments, CMT boxes, 60000 payload-less children of every type the meta box handles, empty PNG chunks) x every accepting entry point: a fixed cost per unit must stay small against the unit"})
+		Rule: "the smallest legal unit of each container structure repeated 3000-20000 times (Exif segments of 31-130 bytes, XMP segments, empty comments, CMT boxes, 60000 payload-less children of every type the meta box handles, empty PNG chunks, XMP start tags nested 100000-400000 deep; stack limit 16 MiB) x every accepting entry point: a fixed cost per unit must stay small against the unit"})
 	sp = append(sp, mc.Space{Name: "box-headers-at-buffer-edges", H: roBoxEdges(mode), NoLevels: true, Isolate: true,
 		Rule: "the CR3 tree with a free box in front of moov sized so that the header of each later box, in 32- and in 64-bit form, starts at every distance -24..+4 from offsets 4096 and 8192 (the reader's buffer size): every CR3 entry point"})
 	sp = append(sp, mc.Space{Name: "jpeg-marker-structures", H: roSeedsPlain(mode, jpegStructureSeeds()), NoLevels: true, Isolate: true,
